@@ -220,6 +220,11 @@ def run(ctx):
            (A.peel(e)[0] == "agg" and A.peel(e)[2] == "Ok" and gf.local_ty(0).find("Vec") >= 0)]
     ctx.check(bool(sorts) and bool(oks) and all(ob not in gf.reachable(0, removed_blocks=sorts) for ob in oks), "C12.5", "get_files_from_dir:sorted",
               "Ok(out) only after out.sort()", "directory listings are returned unsorted", gf.loc())
+    # ... and it lists the files of the directory: an entry is kept only if it is not itself a directory
+    gfc = A.Conds(gf, gfr)
+    kept = A.call_blocks(gf, A.name_endswith("Vec::<T, A>::push"))
+    okk = bool(kept) and all(gfc.guarded(b, lambda fc: fc[0] == "call" and fc[1].endswith("Path::is_dir") and fc[3] is False)[0] for b, t in kept)
+    ctx.check(okk, "C12.5", "get_files_from_dir:files-only", "a directory entry is listed only if !path.is_dir()", "directory entries are listed without / against the is_dir test", gf.loc())
     lz = prog.body_of(FS + "load_zone_configuration")
     lzr = A.Resolver(lz)
     im = A.call_blocks(lz, A.name_is(Z + "Zones::insert_merge"))
